@@ -138,8 +138,8 @@ func c14One(c *ev.Ctx, cs ev.Case, pool []c14Payload, lwOK bool) {
 		} else {
 			f.Opts = mux.FrameOptions{
 				Duration:    pickI(r, 0, 1, 40, 100, 0xFFFFFF, 0xFFFFFF+1, -5, 70000),
-				OffsetX:     pickI(r, 0, 0, 1, 2, 3, 10, 17),
-				OffsetY:     pickI(r, 0, 0, 1, 2, 5, 8),
+				OffsetX:     pickI(r, 0, 0, 1, 2, 3, 10, 17, -1, -2, -8),
+				OffsetY:     pickI(r, 0, 0, 1, 2, 5, 8, -2),
 				BlendMode:   mux.BlendMode(r.Intn(2)),
 				DisposeMode: mux.DisposeMode(r.Intn(2)),
 			}
@@ -284,6 +284,11 @@ func c14One(c *ev.Ctx, cs ev.Case, pool []c14Payload, lwOK bool) {
 		extH = max(extH, f.Opts.OffsetY+f.P.H)
 	}
 	expectReject := len(h.Frames) == 0
+	for _, f := range h.Frames {
+		if f.Opts.OffsetX < 0 || f.Opts.OffsetY < 0 {
+			expectReject = true // unsigned 24-bit offset fields cannot hold a negative offset
+		}
+	}
 	switch h.CanvasMode {
 	case "exact":
 		h.CanvasW, h.CanvasH = extW, extH
